@@ -91,19 +91,22 @@ def rule_state(ctx):
               'progress fields are assigned before the batch that persists them',
               f'progress fields assigned after the batch was opened: {late} (the persisted state lags the rows)', loc=ctx.loc(f, f.node))
     n += 1
-    ifs = [s for s in f.node.body if isinstance(s, ast.If)]
-    ok = False
-    if len(ifs) == 1:
-        t = ifs[0].test
-        fin = isinstance(t, ast.Compare) and isinstance(t.ops[0], ast.Eq) and norm(t.left) == cur and const_value(t.comparators[0]) == 65536
-        body = {norm(s.targets[0]): norm(s.value) for s in ifs[0].body if isinstance(s, ast.Assign)}
-        els = {norm(s.targets[0]): norm(s.value) for s in ifs[0].orelse if isinstance(s, ast.Assign)}
-        order_ok = False
-        if fin:
-            seq = [norm(s.targets[0]) for s in ifs[0].body if isinstance(s, ast.Assign)]
-            order_ok = 'self.flush_count' in seq and 'self.comp_flush_count' in seq and seq.index('self.flush_count') < seq.index('self.comp_flush_count')
-        ok = fin and body == {'self.flush_count': 'self.comp_flush_count', 'self.comp_cursor': '-1', 'self.comp_flush_count': '-1'} \
-            and els == {'self.comp_cursor': cur} and order_ok
+    # per path: cursor == 65536 decides; the final pass hands flush_count := comp_flush_count and then clears the two progress
+    # fields, every other pass stores the cursor and nothing else
+    from .. import paths as P
+    ps = [p_ for p_ in P.paths(f.node.body) if p_.exit in ('fall', 'return')]
+    ok = len(ps) >= 2
+    for p_ in ps:
+        fin = P.decided(ctx, f, p_, f'{cur} == 65536')
+        seq = [(norm(st_.targets[0]), norm(P.subst(st_.value, env_))) for st_, env_ in p_.events
+               if isinstance(st_, ast.Assign) and len(st_.targets) == 1 and norm(st_.targets[0]) in fields]
+        if fin is None:
+            ok = False
+        elif fin:
+            ok = ok and sorted(seq) == sorted([('self.flush_count', 'self.comp_flush_count'), ('self.comp_cursor', '-1'), ('self.comp_flush_count', '-1')]) \
+                and seq.index(('self.flush_count', 'self.comp_flush_count')) < seq.index(('self.comp_flush_count', '-1'))
+        else:
+            ok = ok and seq == [('self.comp_cursor', cur)]
     ctx.check(ok, 'C14.STATE', ctx.key(f, None, 'final pass'),
               'the final pass (cursor 65536) sets flush_count := comp_flush_count, then clears cursor and comp_flush_count; other passes store the cursor',
               'the final/intermediate pass bookkeeping is not as required (flush_count must take comp_flush_count before it is cleared)',
